@@ -921,7 +921,7 @@ impl Property for C05 {
 		500
 	}
 	fn cases(&self, tier: Tier) -> u64 {
-		tier.pick(150_000, 3_000_000)
+		tier.pick(400_000, 3_000_000)
 	}
 
 	fn run(&self, tape: &[u32], ctx: &mut Ctx) -> CaseResult {
